@@ -17,3 +17,79 @@ package bigbuff
 //@   loop 0 invariant act : active <==> some(j, 0, rangeindex+1, offsets[j] > 0)
 //@   loop 0 invariant low : lowest <= size && all(j, 0, rangeindex+1, offsets[j] > 0 ==> lowest <= offsets[j])
 //@   loop 0 invariant att : lowest == size || some(j, 0, rangeindex+1, offsets[j] > 0 && lowest == offsets[j])
+
+//@ func FixedBufferCleaner$1
+//@   props C03 C04
+//@   modular
+//@   ensures forced : size > max ==> ret == size - target
+//@   ensures notify : size > max && callback != nil ==> calls(callback) == 1 && lastarg(callback, 0).Max == max && lastarg(callback, 0).Target == target && lastarg(callback, 0).Size == size && lastarg(callback, 0).Trim == size - target && lastarg(callback, 0).Offsets == offsets
+//@   ensures quiet : size <= max || callback == nil ==> calls(callback) == 0
+//@   ensures dzero : size <= max && some(j, 0, len(offsets), offsets[j] == 0) ==> ret == 0
+//@   ensures dinactive : size <= max && all(j, 0, len(offsets), offsets[j] < 0) ==> ret == 0
+//@   ensures dupper : size <= max && !some(j, 0, len(offsets), offsets[j] == 0) && some(j, 0, len(offsets), offsets[j] > 0) ==> ret <= size && all(j, 0, len(offsets), offsets[j] > 0 ==> ret <= offsets[j])
+//@   ensures dattained : size <= max && !some(j, 0, len(offsets), offsets[j] == 0) && some(j, 0, len(offsets), offsets[j] > 0) ==> ret == size || some(j, 0, len(offsets), offsets[j] > 0 && ret == offsets[j])
+
+// ---------------------------------------------------------------------------------------------------
+// C18 — ExponentialRetry (retry.go, bigbuff.go)
+
+//@ type fatalError as f
+//@   ghostfn unpacked(any) any rigid
+
+//@ axioms fatal
+//@   axiom unpacked_def : forall(x, any, unpacked(x) == ite(is(x, fatalError), unpacked(field(x, fatalError, err)), x))
+//@   axiom fatal_inv : forall(x, any, is(x, fatalError) ==> field(x, fatalError, err) != nil && x != nil)
+//@   axiom unpacked_nonnil : forall(x, any, x != nil ==> unpacked(x) != nil)
+
+//@ func FatalError
+//@   props C18
+//@   panics nilerr : err == nil
+//@   nopanic nonnil : err != nil
+//@   ensures wraps : is(ret, fatalError) && field(ret, fatalError, err) == err && ret != nil
+
+//@ func unpackFatalError
+//@   props C18
+//@   nopanic always : true
+//@   ensures notfatal : !is(ret, fatalError)
+//@   ensures def : ret == unpacked(err)
+//@   ensures ident : !is(err, fatalError) ==> ret == err
+
+//@ func isFatalError
+//@   props C18
+//@   ensures def : ret == is(err, fatalError)
+
+//@ func var:calcExponentialRetry
+//@   props C18
+//@   mode bv
+//@   inline
+//@   requires saturated : c <= 31
+//@   at-call math/rand.Int63n#0 slots : arg0 == i64(u32(1) << old(c))
+//@   ensures lo : lastrand() >= 0
+//@   ensures hi : lastrand() < i64(u32(1) << c)
+//@   ensures mul : ret == lastrand() * d
+
+//@ func var:waitDuration
+//@   props C18
+//@   nopanic always : true
+
+//@ func ExponentialRetry
+//@   props C18
+//@   panics nilvalue : value == nil
+//@   nopanic ok : value != nil
+//@   ensures rate : captured(ret, rate) == ite(rate <= 0, 300000000, rate)
+//@   ensures ctx : ctx != nil ==> captured(ret, ctx) == ctx
+//@   ensures ctxdefault : captured(ret, ctx) != nil
+//@   ensures value : captured(ret, value) == value
+
+//@ func ExponentialRetry$1
+//@   props C18
+//@   mode bv
+//@   modular
+//@   requires value : value != nil && ctx != nil
+//@   loop 0 invariant cnt : c <= 31 && int(c) == min(calls(value), 31)
+//@   at-call dynamic#0 guarded : lasterr(ctx) == nil
+//@   at-call var:calcExponentialRetry#0 rate : arg0 == rate
+//@   at-call math/rand.Int63n#0 slots : int(arg0) >= 1 && arg0 == i64(u32(1) << u32(min(calls(value), 31)))
+//@   at-call var:waitDuration#0 ctx : arg0 == ctx && arg1 == lastrand() * rate
+//@   ensures success : ret1 == nil ==> calls(value) >= 1 && lastres(value, 1) == nil && ret0 == lastres(value, 0)
+//@   ensures failure : ret1 != nil ==> (ret0 == nil && cancelled(ctx)) || (calls(value) >= 1 && is(lastres(value, 1), fatalError) && ret0 == lastres(value, 0) && ret1 == unpacked(lastres(value, 1)))
+//@   ensures unwrapped : ret1 != nil && !(ret0 == nil && cancelled(ctx)) ==> !is(ret1, fatalError)
